@@ -365,9 +365,9 @@ impl RecvStream {
             return BufResult(Ok(0), buf);
         }
         let len = (end - start) as usize;
-        let cap = buf.buf_capacity();
-        let needed = len.saturating_sub(cap);
-        if needed > 0
+        // `reserve` counts from the initialized length, not from the capacity.
+        let needed = len.saturating_sub(buf.buf_len());
+        if buf.buf_capacity() < len
             && let Err(e) = buf.reserve(needed)
         {
             return BufResult(Err(io::Error::new(io::ErrorKind::OutOfMemory, e)), buf);
